@@ -531,6 +531,18 @@ Definition send_response (st : pstate) (i : pval) : pstate * sent_response :=
   | Some None => (mk_pstate (futs st) (rt_del i (rtypes st)), RespRaise)   (* None(...) : TypeError *)
   end.
 
+(* ---------- what else a requester does between a request and its reply ---------- *)
+(* other requests (ESend), notifications - $/cancelRequest for the pending id included - (ENotify)
+   and frames that arrive (ERecv: the dict structure_message is given); only the two tables matter *)
+Inductive ev := ESend (m : list N) (i : pval) | ENotify (m : list N) | ERecv (data : list (list N * pval)).
+Definition ev_step (obj : Type) (structure : list N -> pval -> sres obj) (reg : list mrow)
+                   (st : pstate) (e : ev) : pstate :=
+  match e with
+  | ESend m i => fst (send_request reg st m i)
+  | ENotify m => fst (notify reg st m)
+  | ERecv data => fst (structure_message obj structure reg st data)
+  end.
+
 (* ---------- generated helper methods (rows of coq/Gen/Helpers.v) ---------- *)
 Inductive hkind := HNotify | HSendRequest | HSendRequestAsync.
 Inductive side := Server | Client.
